@@ -10,7 +10,10 @@ import (
 	"verif/harness/hx"
 
 	simapp "github.com/KiraCore/sekai/app"
+	"github.com/KiraCore/sekai/x/gov"
 	govtypes "github.com/KiraCore/sekai/x/gov/types"
+	"github.com/KiraCore/sekai/x/upgrade"
+	upgradetypes "github.com/KiraCore/sekai/x/upgrade/types"
 	recoverykeeper "github.com/KiraCore/sekai/x/recovery/keeper"
 	recoverytypes "github.com/KiraCore/sekai/x/recovery/types"
 	"github.com/KiraCore/sekai/x/slashing"
@@ -91,6 +94,10 @@ func (x *hist) genesis(over map[int]sinfo) {
 	gs := simapp.GenesisStateWithValSet(app2)
 	gs[stakingtypes.ModuleName] = app2.AppCodec().MustMarshalJSON(stExp)
 	gs[slashingtypes.ModuleName] = app2.AppCodec().MustMarshalJSON(slExp)
+	// gov (proposals, votes, actors, network properties) and upgrade (current / next plan) travel too, so that
+	// a process spanning two blocks (upgrade plan) continues on the new chain
+	gs[govtypes.ModuleName] = app2.AppCodec().MustMarshalJSON(gov.ExportGenesis(ctx, appOf(w).CustomGovKeeper))
+	gs[upgradetypes.ModuleName] = upgrade.NewAppModule(appOf(w).UpgradeKeeper).ExportGenesis(ctx, app2.AppCodec())
 	bz, err := jsonMarshal(gs)
 	if err != nil {
 		panic(err)
